@@ -10,7 +10,7 @@ from . import dumpside as D
 from .shared import fn
 
 META = {
-    'claim_added': "Also decided: text-dependent conditions in emit_json are explored on both outcomes, helper methods are inlined, emitter state outside the stack is treated as unknown (an unmodelled rendering is an opaque token that cannot equal the reference); a changed set of container states is reported; the emitter's state is per instance.",
+    'claim_added': "Also decided: text-dependent conditions in emit_json are explored on both outcomes, helper methods are inlined, emitter state outside the stack is treated as unknown (an unmodelled rendering is an opaque token that cannot equal the reference); a changed set of container states is reported; the emitter's state is per instance. Round 3: the load-back clause - built-in scalar types are accepted on their exact tag only (R01.5).",
     'level': 'other',
     'technique': 'static: abstract interpretation of Dumper.emit_json over (event class x scalar tag x top-of-stack state) '
                  'into a finite transducer table compared with the canonical JSON writer written from RFC 8259; option flow '
